@@ -75,8 +75,10 @@ func (d *deduplicator) notifyDKGResultSubmitted(
 ) bool {
 	d.dkgResultHashCache.Sweep()
 
-	cacheKey := newDKGResultSeed.Text(16) +
-		hex.EncodeToString(newDKGResultHash[:]) +
+	// Components are separated so that two different (seed, hash, block)
+	// triples never produce the same key.
+	cacheKey := newDKGResultSeed.Text(16) + "-" +
+		hex.EncodeToString(newDKGResultHash[:]) + "-" +
 		strconv.Itoa(int(newDKGResultBlock))
 
 	// Add returns true only if the key was not in the cache yet. The check
